@@ -468,6 +468,70 @@ async def one_case(r: core.Run, deps, rng_seed: int, idx: int):
                           "expected_files": [(f[0], f[1], f[3]) for f in exp_files], "kwargs": kwargs})
 
 
+# ------------------------------------------------------------------ call sequences on one client with caller-owned kwargs
+
+
+async def sequence_case(r: core.Run, deps, seed: int, variant: str):
+    """A multi-step history: JSON and upload calls alternate on ONE client and the caller re-uses the very same kwargs / headers objects.
+    Every request must be what the same call sends in isolation, and the caller's objects must come back unchanged."""
+    import copy
+
+    rng = random.Random(seed)
+    captured: List[httpx.Request] = []
+
+    def handler(request: httpx.Request):
+        request.read()
+        captured.append(request)
+        return httpx.Response(200, json={"data": {"ok": True}})
+
+    client, tracer = make_client(deps, variant, handler)
+    shared_headers = {"Authorization": "Bearer shared", "X-Seq": "s"}
+    shared_kwargs = {"headers": shared_headers, "timeout": 9.0}
+    before = copy.deepcopy(shared_kwargs)
+    steps = []
+    for i in range(6):
+        allow_upload = (i % 2 == 1) if seed % 2 == 0 else (i % 2 == 0)
+        tg = TreeGen(deps, random.Random(seed * 100 + i))
+        variables, exp_vars = tg.variables(allow_upload, call_id="seq-%d" % i)
+        if allow_upload and not tg.expected_files():
+            up, _ = tg.upload("variables.forcedFile")
+            variables["forcedFile"] = up
+            exp_vars["forcedFile"] = None
+        steps.append((variables, exp_vars, tg.expected_files()))
+    case = {"kind": "sequence", "variant": variant, "seed": seed}
+    for i, (variables, exp_vars, exp_files) in enumerate(steps):
+        n0 = len(captured)
+        try:
+            if variant.startswith("async"):
+                await client.execute("query Q { f }", "Q", variables, **shared_kwargs)
+            else:
+                client.execute("query Q { f }", "Q", variables, **shared_kwargs)
+        except BaseException as e:  # noqa: BLE001
+            r.add_violation(core.Violation(PROP, "execute-raises", "%s step %d of a call sequence: %s: %s" % (variant, i, type(e).__name__, str(e)[:200]), ["history.sequence"], case,
+                                           mech="c11:execute-raises"))
+            continue
+        r.evaluations += 1
+        r.count("sequence_calls")
+        if len(captured) != n0 + 1:
+            r.add_violation(core.Violation(PROP, "one-request", "%s step %d sent %d requests" % (variant, i, len(captured) - n0), ["history.sequence"], case, mech="c11:one-request"))
+            continue
+        probs = judge_request(decode_request(captured[-1]), "query Q { f }", "Q", exp_vars, exp_files, {"headers": before["headers"], "timeout": 9.0})
+        if not probs:
+            r.held += 1
+        for clause, detail in probs:
+            r.add_violation(core.Violation(PROP, clause, "%s step %d (%s after %s) of a call sequence sharing one kwargs dict: %s" % (
+                variant, i, "multipart" if exp_files else "json", ("multipart" if steps[i - 1][2] else "json") if i else "nothing", detail), ["history.sequence"], case,
+                mech="c11:sequence:" + clause))
+    if shared_kwargs != before:
+        r.add_violation(core.Violation(PROP, "caller-kwargs-untouched", "%s: the caller's kwargs changed from %r to %r" % (variant, before, shared_kwargs), ["history.sequence"], case,
+                                       mech="c11:caller-kwargs-mutated"))
+    if variant.startswith("async"):
+        await client.http_client.aclose()
+    else:
+        client.http_client.close()
+    r.mark_distinct(("sequence", variant, seed % 2))
+
+
 # ------------------------------------------------------------------ schedules
 
 
@@ -711,6 +775,9 @@ async def amain(r: core.Run, tier: str, seed: int):
     n_single = 4000 if thorough else 500
     for idx in range(n_single):
         await one_case(r, deps, seed, idx)
+    for k in range(40 if thorough else 6):
+        for variant in VARIANTS:
+            await sequence_case(r, deps, seed * 50 + k, variant)
     rounds = 40 if thorough else 6
     for k in range(rounds):
         for variant in ("async", "async_otel", "async_otel+tracer"):
@@ -734,7 +801,7 @@ def run(tier: str, seed: int) -> int:
         for variant in ("sync", "sync_otel", "sync_otel+tracer"):
             stress_sync(r, deps, variant, seed * 1000 + k, 32, 8, inject=False)
             stress_sync(r, deps, variant, seed * 1000 + 500 + k, 32, 8, inject=True)
-    r.floors = {"multipart": 100, "json": 100, "interleavings.asyncio": 3, "interleavings.threads": 3, "interleavings.threads+inject": 3,
+    r.floors = {"sequence_calls": 100, "multipart": 100, "json": 100, "interleavings.asyncio": 3, "interleavings.threads": 3, "interleavings.threads+inject": 3,
                 "overlapping_begins.threads+inject": 10, "overlapping_begins.asyncio": 10}
     return r.finish()
 
@@ -746,6 +813,8 @@ def replay(data) -> int:
 
     if case["kind"] == "single":
         asyncio.run(one_case(r, deps, case["seed"], case["idx"]))
+    elif case["kind"] == "sequence":
+        asyncio.run(sequence_case(r, deps, case["seed"], case["variant"]))
     elif case["mode"] == "asyncio":
         asyncio.run(stress_async(r, deps, case["variant"], case["seed"], case["n_calls"]))
     else:
